@@ -735,18 +735,18 @@ Section RefProofs.
   Proof.
     unfold crypt2_key_ok, crypt2_key_ok_any. destruct (cl_keys rc) as [|c0 cr].
     - destruct (srv_key rc); [|auto]. intros [kc [A B]]. exists kc. split; [apply unwrap_ok_weaken; exact A|apply crypt_ok_weaken; exact B].
-    - intros [ck [A [B [C D]]]]. exists ck. repeat split; try assumption. apply crypt_ok_weaken. exact D.
+    - intros [ck [A [B [C D]]]]. exists ck. split; [exact A|]. split; [exact B|]. split; [exact C|]. apply crypt_ok_weaken. exact D.
   Qed.
   Lemma key_ok_strengthen rc kid sid rp tag enc wtag wenc : sha256_only tag -> sha256_only wtag ->
     crypt2_key_ok_any rc kid sid rp tag enc wtag wenc -> crypt2_key_ok rc kid sid rp tag enc wtag wenc.
   Proof.
     intros H1 H2. unfold crypt2_key_ok, crypt2_key_ok_any. destruct (cl_keys rc) as [|c0 cr].
     - destruct (srv_key rc); [|auto]. intros [kc [A B]]. exists kc. split; [apply unwrap_ok_strengthen; assumption|apply crypt_ok_strengthen; assumption].
-    - intros [ck [A [B [C D]]]]. exists ck. repeat split; try assumption. apply crypt_ok_strengthen; assumption.
+    - intros [ck [A [B [C D]]]]. exists ck. split; [exact A|]. split; [exact B|]. split; [exact C|]. apply crypt_ok_strengthen; assumption.
   Qed.
 
   Lemma crypt2_body_length sid rp tag enc wtag wenc : length tag = 32%nat -> length enc = 5%nat -> length wtag = 32%nat ->
-    length (crypt2_body sid rp tag enc wtag wenc) = (87 + length wenc + 2)%nat.
+    length (crypt2_body sid rp tag enc wtag wenc) = (85 + length wenc + 2)%nat.
   Proof. intros A B C. unfold crypt2_body, crypt_body. rewrite !app_length, !be_length, A, B, C. lia. Qed.
 
   Lemma encode_crypt2 kid sid rp tag enc wtag wenc :
